@@ -60,6 +60,9 @@ class StreamingHandler(AsyncCallbackHandler, AsyncIterator):
         # The current buffer, until we start the processing.
         self.buffer = ""
 
+        # Whether the LLM finished the generation while the handler was still buffering.
+        self.llm_ended_while_buffering = False
+
         # The full completion
         self.completion = ""
 
@@ -124,6 +127,11 @@ class StreamingHandler(AsyncCallbackHandler, AsyncIterator):
 
         await self.push_chunk(self.buffer)
         self.buffer = ""
+
+        # If the LLM finished while we were still buffering, we end the stream now.
+        if self.llm_ended_while_buffering:
+            self.llm_ended_while_buffering = False
+            await self._on_generation_end()
 
     async def __anext__(self):
         element = None
@@ -232,6 +240,12 @@ class StreamingHandler(AsyncCallbackHandler, AsyncIterator):
             log.info(f"{self.uid[0:3]} - CHUNK after finish: {chunk}")
             return
 
+        # While buffering, the chunks are only recorded. The prefix/suffix/stop patterns
+        # are applied when the buffer is processed as a chunk (see `disable_buffering`).
+        if self.enable_buffer:
+            await self._process(chunk)
+            return
+
         # Only after we get the expected prefix we remove it and start streaming
         if self.prefix:
             if chunk is not None:
@@ -331,6 +345,15 @@ class StreamingHandler(AsyncCallbackHandler, AsyncIterator):
         **kwargs: Any,
     ) -> None:
         """Run when LLM ends running."""
+        if self.enable_buffer:
+            # The pattern is not applied yet; we finish when the buffer is processed.
+            self.llm_ended_while_buffering = True
+            return
+
+        await self._on_generation_end()
+
+    async def _on_generation_end(self):
+        """Process what is left of the current chunk and end the stream."""
         if self.current_chunk:
             self._remove_suffix_at_end()
 
